@@ -3,14 +3,14 @@ import itertools
 
 import numpy as np
 from hypothesis import strategies as st
-from sympy import S, Add
+from sympy import S, Add, Pow
 
 from adcgen import Expr, transform_to_spatial_orbitals
 from adcgen.spatial_orbitals import integrate_spin, allowed_spin_blocks
 from adcgen.indices import Index, get_symbols
 
-from ..gen import (Cfg, st_expr_case, build_term, syms, parse_label,
-                   label_class, term_label_count, BadCase)
+from ..gen import (Cfg, st_expr_case, build_term, build_obj, obj_labels,
+                   syms, parse_label, label_class, term_label_count, BadCase)
 from ..model import Model, evaluate, idx_key, P
 from ..runner import R, drive, lib_call
 from .. import common
@@ -53,8 +53,81 @@ CFG_BIG = Cfg(min_obj=4, max_obj=5, max_terms=1, max_target=4, max_exp=1,
               weights={"t2": 3})
 
 
+def _pobj(kind, name, u, l=(), bk=0):
+    return {"k": kind, "name": name, "u": list(u), "l": list(l), "bk": bk,
+            "exp": 1}
+
+
+@st.composite
+def st_poly_case(draw):
+    """A term with explicit target indices that carries a polynomial factor
+    (sum of orbital energies and integrals on the target indices, e.g. an
+    Epstein-Nesbet like denominator) next to / instead of top-level
+    integrals."""
+    if draw(st.booleans()):
+        occ, virt = ["i", "j"], ["a", "b"]
+    else:
+        occ, virt = ["i"], ["a"]
+    tg = occ + virt
+    num = []
+    kind = draw(st.sampled_from(["V", "v", "x", "t", "none", "xV"]))
+    if len(occ) == 2:
+        if kind in ("V", "xV"):
+            num.append(_pobj("A", "V", occ, virt))
+        if kind == "v":
+            num.append(_pobj("S", "v", [occ[0], virt[0]], [occ[1], virt[1]],
+                             1))
+        if kind in ("x", "xV"):
+            num.append(_pobj("N", "x", [occ[0], virt[1]]))
+        if kind == "t":
+            num.append(_pobj("T", "t1", virt, occ))
+    else:
+        if kind in ("V", "xV", "v"):
+            num.append(_pobj("A", "V", [occ[0], virt[0]], [occ[0], virt[0]]))
+        if kind in ("x", "xV"):
+            num.append(_pobj("N", "x", [occ[0], virt[0]]))
+        if kind == "t":
+            num.append(_pobj("T", "t2", virt, occ))
+    poly = []
+    # orbital energies of (a subset of) the targets, at least one
+    es = draw(st.lists(st.sampled_from(tg), min_size=1, max_size=len(tg),
+                       unique=True))
+    for lbl in es:
+        poly.append({"c": draw(st.sampled_from([1, -1, 2])),
+                     "o": _pobj("N", "e", [lbl])})
+    pairs = [(p_, q_) for p_, q_ in itertools.combinations(tg, 2)]
+    for p_, q_ in draw(st.lists(st.sampled_from(pairs), min_size=1,
+                                max_size=3, unique=True)):
+        shape = draw(st.sampled_from(["diag", "diag", "exch", "coul"]))
+        if shape == "diag":
+            o = _pobj("A", "V", [p_, q_], [p_, q_])
+        elif shape == "exch":
+            o = _pobj("A", "V", [p_, q_], [q_, p_])
+        else:
+            o = _pobj("S", "v", [p_, p_], [q_, q_], 1)
+        poly.append({"c": draw(st.sampled_from([1, -1, 2, -3])), "o": o})
+    if len(occ) == 2 and draw(st.booleans()):
+        poly.append({"c": draw(st.sampled_from([1, -1])),
+                     "o": _pobj("A", "V", occ, virt)})
+    order = list(draw(st.permutations(tg)))
+    all_spins = ["".join(s_) for s_ in
+                 itertools.product("ab", repeat=len(order))]
+    spins = list(draw(st.permutations(all_spins)))[:4]
+    return {"poly": {"num": num, "terms": poly,
+                     "exp": draw(st.sampled_from([-1, -1, -2, 1, 2])),
+                     "pref": [draw(st.sampled_from([1, -1, 3])),
+                              draw(st.sampled_from([1, 2]))]},
+            "order": order, "spins": spins,
+            "expand_eri": draw(st.sampled_from([True, True, False])),
+            "restricted": draw(st.sampled_from([True, True, False])),
+            "size": draw(st.sampled_from([[1, 1], [2, 1], [1, 2]])),
+            "mseed": draw(st.integers(0, 2**31))}
+
+
 @st.composite
 def st_case(draw):
+    if draw(st.integers(0, 9)) == 0:
+        return draw(st_poly_case())
     if draw(st.integers(0, 4)) == 0:
         base = draw(st_expr_case(CFG_BIG))
         if len(base["targets"]) >= 2:
@@ -192,15 +265,33 @@ def run_case(case):
     order = case["order"]
     tnames = "".join(parse_label(l)[0] for l in order)
     targets = tuple(syms(order))
-    terms = [build_term(t) for t in case["terms"]]
-    terms = [t for t in terms if t != 0]
-    if not terms:
-        raise BadCase("zero")
-    e = Expr(Add(*terms), real=True)
+    if "poly" in case:
+        # explicit target indices: an index shared by the numerator and the
+        # polynomial is not summed
+        pc = case["poly"]
+        base = Add(*[int(q["c"]) * build_obj(q["o"]) for q in pc["terms"]])
+        if base == 0 or not isinstance(base, Add) or \
+                int(pc["exp"]) not in (-2, -1, 1, 2):
+            raise BadCase("degenerate polynomial")
+        lbls = {l for q in pc["terms"] for l in obj_labels(q["o"])} | \
+            {l for o in pc["num"] for l in obj_labels(o)}
+        if lbls != set(order) or len(set(order)) != len(order):
+            raise BadCase("labels of a polynomial case must be the targets")
+        raw = build_term({"pref": pc.get("pref", [1, 1]),
+                          "objs": pc["num"]}) * Pow(base, int(pc["exp"]))
+        e = Expr(raw, real=True, target_idx=list(targets))
+        case = dict(case, terms=[{"objs": list(pc["num"]) +
+                                  [q["o"] for q in pc["terms"]]}])
+    else:
+        terms = [build_term(t) for t in case["terms"]]
+        terms = [t for t in terms if t != 0]
+        if not terms:
+            raise BadCase("zero")
+        e = Expr(Add(*terms), real=True)
     if e.sympy == 0:
         raise BadCase("zero")
     names = {o["name"] for t in case["terms"] for o in t["objs"]}
-    restricted_ok = names <= {"V", "x", "z", "delta", "f"}
+    restricted_ok = names <= {"V", "v", "e", "x", "z", "delta", "f"}
     restricted = case["restricted"] and restricted_ok and case["expand_eri"]
     r.sample = (f"transform_to_spatial_orbitals({e}, '{tnames}', "
                 f"{case['spins']}, restricted={restricted}, expand_eri="
@@ -276,6 +367,12 @@ def run_case(case):
         if len(t["objs"]) >= 2 and any(n >= 2 for l, n in cnt.items()
                                        if l not in order):
             nt = True
+    if "poly" in case:
+        r.nontrivial = any(nz_blocks.values())
+        r.cls("polynomial_factor", f"poly_exp={case['poly']['exp']}",
+              "restricted" if restricted else "unrestricted",
+              f"expand_eri={case['expand_eri']}")
+        return r
     if case.get("only_allowed"):
         r.nontrivial = nt and bool((v_so != 0).any())
         r.cls("allowed_spin_blocks_large_term",
